@@ -1147,6 +1147,12 @@ func (w *Wallet) MintSwap(amount uint64, from, to string) (uint64, error) {
 
 	amountSwapped, err := w.swapProofs(proofsToSwap, &fromMint, &toMint)
 	if err != nil {
+		// the proofs were removed from the db when they were selected.
+		// Keep them as pending so they are not lost and can be reclaimed
+		// if the mint did not spend them.
+		if dbErr := w.db.AddPendingProofs(proofsToSwap); dbErr != nil {
+			return 0, fmt.Errorf("%v. Could not save proofs to pending: %v", err, dbErr)
+		}
 		return 0, err
 	}
 
